@@ -91,6 +91,7 @@ func runNBRandom(w *rt.World, res *hx.Result, kind int) *hx.Violation {
 		cl.tcp = kind == 2 && clTCP[c] == 0
 		cl.linger = cl.tcp && clLinger[c] <= 1
 		cl.silent = cl.tcp && clLinger[c] == 1
+		cl.noread = cl.linger && !cl.silent && clWindow[c] >= 2                 // pipelines its requests, never reads a response, keeps the connection open
 		cl.paced = cl.tcp && !cl.linger && clLinger[c] == 2 && clWindow[c] <= 1 // one request every 12 s on one connection
 		nreq := clN[c]
 		if flood && c == 0 {
@@ -551,6 +552,12 @@ func tcpClient(cl *nbClient, window int) {
 	}
 	if cl.trigger != nil {
 		cl.trigger.Set()
+	}
+	if cl.noread {
+		// the server's responses pile up against this client's tiny receive window: its handler ends up
+		// blocked in conn.Write, which is where Stop() has to be able to interrupt it
+		rt.SleepUntil(rt.Now() + 1e6)
+		return
 	}
 	cl.sentAll = true
 	for len(cl.got) < len(cl.reqs) {
